@@ -87,7 +87,7 @@ def cache_key(tier, seed):
     for p in (C.VH, C.DRIVER):
         st = os.stat(p)
         h.update(("%s:%d:%d" % (p, st.st_mtime_ns, st.st_size)).encode())
-    h.update(("v12:%s:%s" % (tier, seed)).encode())
+    h.update(("v13:%s:%s" % (tier, seed)).encode())
     return h.hexdigest()[:16]
 
 
@@ -134,7 +134,7 @@ def run_differential(tier, seed):
                                     "keys": sorted(diff_keys(lm, li))})
         # tie (B): the acceptors of P (election layer, log layer) over the P-level event traces of the same runs
         acc = {}
-        for pref, key in (("pel-sim", "pelection"), ("plog-sim", "plog")):
+        for pref, key in (("pel-sim", "pelection"), ("plog-sim", "plog"), ("pread-sim", "pread")):
             pn, pfirst, pnd = C.run_model_on_shards(d, pref)
             prej = []
             for c in C.shard_files(d, pref, "cases"):
@@ -227,7 +227,8 @@ def check(spec, tier, seed, replay=None):
                 a = summ.get("acceptors", {}).get(accname, {"traces": 0, "events": 0, "rejects": []})
                 summ["pel_traces"], summ["pel_events"], summ["pel_rejects"] = a["traces"], a["events"], a["rejects"]
                 pref, fun, mod = {"pelection": ("pel-sim", "run_pelection", "Run.RunPElection"),
-                                  "plog": ("plog-sim", "run_plog", "Run.RunPLog")}[accname]
+                                  "plog": ("plog-sim", "run_plog", "Run.RunPLog"),
+                                  "pread": ("pread-sim", "run_pread", "Run.RunPRead")}[accname]
                 if a["rejects"]:
                     r0 = a["rejects"][0]
                     broken.append("refinement: %d of %d simulated executions are NOT executions of the abstract protocol P (acceptor %s); first: %s line %d answer '%s' (0 <event index> <reason 1 pre / 2 guard / 3 post> <event code>)"
